@@ -75,7 +75,7 @@ def _random_one(args):
     work, i, kind, seed = args
     gen = mg.random_c12 if kind == "c12" else mg.random_c20
     try:
-        return gen(digital_rf, os.path.join(work, "md", "e3-%d" % os.getpid()), random.Random(seed), "%s-rand%d" % (kind, i))
+        return gen(digital_rf, os.path.join(work, "md", "e3-%d" % os.getpid()), random.Random(seed), "%s-rand%d" % (kind, i), strat=i)
     except md.DriverError as e:
         return "driver error: %s" % e
 
